@@ -10,7 +10,7 @@
 import LyonVerif.Model.Geom.Intersect
 import LyonVerif.Lemmas.IxField
 
-geom_all Lyon.Tri
+geom_all Lyon.IxTri
 geom_all Lyon.Quad
 geom_all Lyon.LineEq
 geom_all Lyon.Roots
@@ -373,11 +373,11 @@ theorem line_intersection_none_iff [Eps K] (l o : Line K) :
 
 /-- **`contains_point` ⇔ strictly inside a non-degenerate triangle**: `p` is a convex combination
 of the three vertices with strictly positive weights. -/
-theorem triangle_contains_iff (t : Tri K) (p : P K) :
+theorem triangle_contains_iff (t : IxTri K) (p : P K) :
     t.containsPoint p = true ↔
       t.det ≠ 0 ∧ ∃ wa wb wc : K, 0 < wa ∧ 0 < wb ∧ 0 < wc ∧ wa + wb + wc = 1
         ∧ p.x = wa * t.a.x + wb * t.b.x + wc * t.c.x ∧ p.y = wa * t.a.y + wb * t.b.y + wc * t.c.y := by
-  unfold Tri.containsPoint
+  unfold IxTri.containsPoint
   by_cases hd0 : (t.det == (Scalar.zero : K)) = true
   · have : t.det = 0 := (beq_zero_iff _).mp hd0
     rw [if_pos hd0]
@@ -395,28 +395,28 @@ theorem triangle_contains_iff (t : Tri K) (p : P K) :
     constructor
     · rintro ⟨⟨ha, hb⟩, hc⟩
       refine ⟨hd, t.baryC p, t.baryB p, t.baryA p, hc, hb, ha, ?_, ?_, ?_⟩
-      · simp only [Tri.baryC, geom, Nat.cast_one]; ring
-      · simp only [Tri.baryC, Tri.baryA, Tri.baryB, Tri.det, geom, Nat.cast_one, hD1]
+      · simp only [IxTri.baryC, geom, Nat.cast_one]; ring
+      · simp only [IxTri.baryC, IxTri.baryA, IxTri.baryB, IxTri.det, geom, Nat.cast_one, hD1]
         linear_combination (-(p.x - t.a.x)) * hD2
-      · simp only [Tri.baryC, Tri.baryA, Tri.baryB, Tri.det, geom, Nat.cast_one, hD1]
+      · simp only [IxTri.baryC, IxTri.baryA, IxTri.baryB, IxTri.det, geom, Nat.cast_one, hD1]
         linear_combination (-(p.y - t.a.y)) * hD2
     · rintro ⟨_, wa, wb, wc, ha, hb, hc, hsum, hx, hy⟩
       have hwa : wa = 1 - wb - wc := by linear_combination hsum
       have eA : t.baryA p = wc := by
-        simp only [Tri.baryA, Tri.det, geom, Nat.cast_one, hx, hy, hwa, hD1]
+        simp only [IxTri.baryA, IxTri.det, geom, Nat.cast_one, hx, hy, hwa, hD1]
         linear_combination wc * hD2
       have eB : t.baryB p = wb := by
-        simp only [Tri.baryB, Tri.det, geom, Nat.cast_one, hx, hy, hwa, hD1]
+        simp only [IxTri.baryB, IxTri.det, geom, Nat.cast_one, hx, hy, hwa, hD1]
         linear_combination wb * hD2
       have eC : t.baryC p = wa := by
-        unfold Tri.baryC
+        unfold IxTri.baryC
         rw [eA, eB]
         simp only [geom, Nat.cast_one]
         linear_combination -hsum
       rw [eA, eB, eC]
       exact ⟨⟨hc, hb⟩, ha⟩
 
-example : (⟨⟨0, 0⟩, ⟨1, 0⟩, ⟨0, 1⟩⟩ : Tri ℚ).containsPoint ⟨1/5, 1/5⟩ = true := by
+example : (⟨⟨0, 0⟩, ⟨1, 0⟩, ⟨0, 1⟩⟩ : IxTri ℚ).containsPoint ⟨1/5, 1/5⟩ = true := by
   rw [triangle_contains_iff]
   refine ⟨by simp only [geom]; norm_num, 3/5, 1/5, 1/5, by norm_num, by norm_num, by norm_num, by norm_num, by norm_num, by norm_num⟩
 
